@@ -82,3 +82,61 @@ def shim(ret, name, params, body):
     """extern "C" by-value shim text; params: list of (short type, name)"""
     ps = ', '.join('%s %s' % (cxx(t), n) for t, n in params)
     return 'extern "C" %s %s(%s) { %s }\n' % (ret if ret in ('bool', 'void', 'int') else cxx(ret), name, ps, body)
+
+
+# ----------------------------------------------------------------------------- facts: compile-time constants read from the IR
+
+def fact_shim(name, expr):
+    """extern "C" nullary function returning a compile-time constant of the instantiation (clang folds it at -O0)"""
+    return 'extern "C" long long vp_fact_%s() { return static_cast<long long>(%s); }\n' % (name, expr)
+
+
+def fact_value(tr, name):
+    """value of a fact function, read from its IR body ('ret i64 <const>')"""
+    f = tr.mod.funcs.get('vp_fact_' + name)
+    if f is None:
+        raise KeyError('fact %s not in kernel' % name)
+    for ln in f.lines:
+        m = re.match(r'\s*ret i64 (-?\d+)\s*$', ln)
+        if m:
+            return int(m.group(1))
+    raise KeyError('fact %s is not a folded constant' % name)
+
+
+def fact_job(prop, kernel, name, expected, what, layer=0):
+    """obligation: a compile-time fact of the instantiation equals what the property statement prescribes"""
+    return Job('%s.fact.%s' % (prop, name), kernel, r'^vp_fact_%s$' % re.escape(name),
+               Contract(requires=[], ensures=['(int64_t)$RET == %dLL' % expected], assigns=[], note=what),
+               shim='vp_fact_' + name, shim_types=[], oracle=lambda: ('value', expected), prop=prop,
+               timeout=60, layer=layer, skip_this=False, note=what)
+
+
+def rep_path(tr, t):
+    """field path from a (nested) wrapper struct type to its scalar rep"""
+    from .run import scalar_path
+    return scalar_path(tr, t)[0]
+
+
+def arg_rep(tr, fi, k):
+    """C expression for the scalar rep behind parameter k (pointer to nested wrapper, pointer to scalar, or scalar)"""
+    t = tr.mod.resolve(fi['param_t'][k])
+    if t.k == 'ptr':
+        return '((*a%d)%s)' % (k, rep_path(tr, t.a))
+    return 'a%d' % k
+
+
+def in_rep(tr, fi, k):
+    """same as arg_rep but over the harness-owned input objects (for signal macros / regions)"""
+    t = tr.mod.resolve(fi['param_t'][k])
+    if t.k == 'ptr':
+        return '(vp_in%d%s)' % (k, rep_path(tr, t.a))
+    return 'vp_in%d' % k
+
+
+def pow_const(radix, k, w):
+    return wconst(radix ** k, w)
+
+
+def bits_for(v):
+    """bits of a signed vector that holds every integer of magnitude <= v"""
+    return int(v).bit_length() + 2
